@@ -1,5 +1,6 @@
 import FCA.Proofs.DefnOps
 import FCA.Proofs.DefnMove
+import FCA.Proofs.DefnSet
 /-
 C13 — every edit history of a `Definition` matches the ordered-table model.
 
@@ -8,7 +9,9 @@ list of true cells used as a set.  Proved here: the model is well behaved for ev
 (representation invariant `Defn.Inv`), `bools` is always rectangular, a definition satisfying the
 invariant equals a fresh one built from its own triple (and a residue cell is visible as an
 inequality), removed / renamed names leave nothing behind, new names are appended in the order
-given, cell assignment touches exactly one cell, and rejected calls leave the state alone.
+given, cell assignment touches exactly one cell, and rejected calls leave the state alone; the cell
+list is a set (`C13_pairs_as_set*`: nothing observable depends on its order or on repeats); renaming
+keeps the position and the table, removing keeps all other rows / columns.
 -/
 namespace FCA
 
@@ -661,6 +664,335 @@ theorem C13_removeEmptyProperties {d d' : Defn} {r : List Name}
 example : ∃ d' r, (⟨["o1", "o2", "o3"], ["p1"], [("o2", "p1")]⟩ : Defn).step .removeEmptyObjects
     = .ok (d', r) ∧ r = ["o1", "o3"] ∧ d'.objs = ["o2"] := ⟨_, _, rfl, by decide, by decide⟩
 
+/-! ### the cell list is a set -/
+
+/-- the same definition with its cell set enumerated differently (other order, repeats) -/
+def exD' : Defn := ⟨["o1", "o2"], ["p1", "p2"], [("o2", "p2"), ("o1", "p1"), ("o2", "p2")]⟩
+
+theorem exD_sameSet : exD.SameSet exD' := by
+  refine ⟨rfl, rfl, ?_⟩
+  intro x
+  simp only [exD, exD', List.mem_cons, List.not_mem_nil, or_false]
+  tauto
+
+/-- every observable of a definition depends only on *membership* in `pairs`, not on the order or
+multiplicity of that list (a Python `set`): the table, cell reads, the comparison with a fresh
+definition, order-insensitive equality, the conflict list against any other definition, and for
+every mutator call (also with a re-enumerated operand): both calls fail with the same exception
+class or both succeed with the same names, the same return value and the same set of cells -/
+theorem C13_pairs_as_set (d d' : Defn) (ho : d.objs = d'.objs) (hp : d.props = d'.props)
+    (hm : ∀ x, x ∈ d.pairs ↔ x ∈ d'.pairs) :
+    d.bools = d'.bools ∧ (∀ o p, d.getItem o p = d'.getItem o p) ∧ d.freshEq = d'.freshEq ∧
+    (∀ e, d.eqv e = d'.eqv e ∧ e.eqv d = e.eqv d') ∧
+    (∀ e, d.conflictList e = d'.conflictList e ∧ e.conflictList d = e.conflictList d') ∧
+    (∀ op op', op.SameSet op' →
+      match d.step op, d'.step op' with
+      | .ok (x, r), .ok (x', r') =>
+          x.objs = x'.objs ∧ x.props = x'.props ∧ r = r' ∧ ∀ y, y ∈ x.pairs ↔ y ∈ x'.pairs
+      | .error e, .error e' => e = e'
+      | _, _ => False) := by
+  have h : d.SameSet d' := ⟨ho, hp, hm⟩
+  refine ⟨bools_congr h, getItem_congr h, ?_, ?_, ?_, ?_⟩
+  · rw [Bool.eq_iff_iff, C13_freshEq_iff, C13_freshEq_iff, ho, hp]
+    simp only [hm]
+  · exact fun e => ⟨eqv_congr h (.refl e), eqv_congr (.refl e) h⟩
+  · exact fun e => ⟨conflicts_congr h (.refl e), conflicts_congr (.refl e) h⟩
+  · intro op op' hop
+    have := step_sameSet h hop
+    rcases h1 : d.step op with e | ⟨x, r⟩ <;> rcases h2 : d'.step op' with e' | ⟨x', r'⟩ <;>
+      rw [h1, h2] at this <;> simp only [ResSameSet] at this ⊢
+    · exact this
+    · exact ⟨this.1.1, this.1.2.1, this.2, this.1.2.2⟩
+
+example : exD.objs = exD'.objs ∧ exD.props = exD'.props ∧ (∀ x, x ∈ exD.pairs ↔ x ∈ exD'.pairs) ∧
+    exD.pairs ≠ exD'.pairs := ⟨rfl, rfl, exD_sameSet.2.2, by decide⟩
+
+/-- … and so does every edit history: same final names, same set of cells, same table, and the same
+sequence of return values / exception classes -/
+theorem C13_pairs_as_set_history (d d' : Defn) (ops ops' : List Op) (ho : d.objs = d'.objs)
+    (hp : d.props = d'.props) (hm : ∀ x, x ∈ d.pairs ↔ x ∈ d'.pairs)
+    (hops : List.Forall₂ Op.SameSet ops ops') :
+    (d.runHistory ops).objs = (d'.runHistory ops').objs ∧
+    (d.runHistory ops).props = (d'.runHistory ops').props ∧
+    (∀ x, x ∈ (d.runHistory ops).pairs ↔ x ∈ (d'.runHistory ops').pairs) ∧
+    (d.runHistory ops).bools = (d'.runHistory ops').bools ∧
+    (d.runTrace ops).2 = (d'.runTrace ops').2 := by
+  obtain ⟨h1, h2⟩ := runTrace_sameSet (d := d) (d' := d') ⟨ho, hp, hm⟩ hops
+  rw [(C13_trace_history d ops).1, (C13_trace_history d' ops').1] at h1
+  exact ⟨h1.1, h1.2.1, h1.2.2, bools_congr h1, h2⟩
+
+/-- the deriving operations: `inverted` and `take` do not see the enumeration at all, `transposed`
+maps it to another enumeration of the transposed set -/
+theorem C13_pairs_as_set_derived (d d' : Defn) (ho : d.objs = d'.objs) (hp : d.props = d'.props)
+    (hm : ∀ x, x ∈ d.pairs ↔ x ∈ d'.pairs) :
+    d.inverted = d'.inverted ∧ (∀ a b r, d.take a b r = d'.take a b r) ∧
+    d.transposed.objs = d'.transposed.objs ∧ d.transposed.props = d'.transposed.props ∧
+    (∀ x, x ∈ d.transposed.pairs ↔ x ∈ d'.transposed.pairs) ∧
+    d.transposed.bools = d'.transposed.bools :=
+  have h : d.SameSet d' := ⟨ho, hp, hm⟩
+  ⟨inverted_congr h, take_congr h, (transposed_sameSet h).1, (transposed_sameSet h).2.1,
+    (transposed_sameSet h).2.2, bools_congr (transposed_sameSet h)⟩
+
+/-! ### rename keeps the position, remove keeps the rest -/
+
+/-- `rename_object`: the new name sits at the index of the old one, all other names stay where they
+are, properties are untouched; cells of other objects are unchanged and the row of the new name is the
+row of the old one — under the invariant the whole table is unchanged -/
+theorem C13_rename_keeps_position {d d' : Defn} {old new : Name} {r : List Name} (h : d.Inv)
+    (hs : d.step (.renameObject old new) = .ok (d', r)) :
+    d'.objs.length = d.objs.length ∧
+    (∀ i : Nat, d'.objs[i]? = (d.objs[i]?).map fun x => if x = old then new else x) ∧
+    d'.objs.idxOf new = d.objs.idxOf old ∧
+    d'.props = d.props ∧
+    (∀ a b, a ≠ old → a ≠ new → ((a, b) ∈ d'.pairs ↔ (a, b) ∈ d.pairs)) ∧
+    (∀ b, (new, b) ∈ d'.pairs ↔ (old, b) ∈ d.pairs) ∧
+    (∀ a b, a ∈ d.objs → a ≠ old → d'.getItem a b = d.getItem a b) ∧
+    (∀ b, d'.getItem new b = d.getItem old b) ∧
+    d'.bools = d.bools := by
+  obtain ⟨hn, ho, _, rfl⟩ := step_renameObject_ok hs
+  have hne : new ≠ old := fun e => hn (e ▸ ho)
+  have hnocell : ∀ b, (new, b) ∉ d.pairs := fun b hb => hn (h.2.2.2 _ _ hb).1
+  have hother : ∀ a b, a ≠ old → a ≠ new →
+      ((a, b) ∈ (d.pairs.map fun (o, p) => if o == old then (new, p) else (o, p)) ↔ (a, b) ∈ d.pairs) := by
+    intro a b h1 h2
+    rw [mem_renameObj]; tauto
+  have hnew : ∀ b, (new, b) ∈ (d.pairs.map fun (o, p) => if o == old then (new, p) else (o, p)) ↔
+      (old, b) ∈ d.pairs := by
+    intro b
+    rw [mem_renameObj]
+    have := hnocell b
+    tauto
+  refine ⟨by simp, ?_, ?_, rfl, hother, hnew, ?_, ?_, ?_⟩
+  · intro i
+    simp only [List.getElem?_map, beq_iff_eq]
+  · exact idxOf_replace hn ho
+  · intro a b ha hao
+    have han : a ≠ new := fun e => hn (e ▸ ha)
+    have hm : a ∈ (d.objs.map fun x => if x == old then new else x) := by
+      rw [mem_replace]; exact Or.inl ⟨ha, hao⟩
+    simp only [Defn.getItem, List.contains_eq_mem, hm, ha, hother a b hao han]
+  · intro b
+    have hm : new ∈ (d.objs.map fun x => if x == old then new else x) := by
+      rw [mem_replace]; exact Or.inr ⟨rfl, ho⟩
+    simp only [Defn.getItem, List.contains_eq_mem, hm, ho, hnew b]
+  · simp only [Defn.bools, List.map_map]
+    apply List.map_congr_left
+    intro a ha
+    apply List.map_congr_left
+    intro b _
+    rw [Bool.eq_iff_iff, List.contains_iff_mem, List.contains_iff_mem]
+    beta_reduce
+    by_cases hao : a = old
+    · subst hao
+      have e : (if (a == a) = true then new else a) = new := by simp
+      rw [e]; exact hnew b
+    · have han : a ≠ new := fun e => hn (e ▸ ha)
+      have e : (if (a == old) = true then new else a) = a := by simp [hao]
+      rw [e]; exact hother a b hao han
+
+example : exD.Inv ∧ ∃ d' r, exD.step (.renameObject "o1" "o9") = .ok (d', r) ∧
+    d'.objs = ["o9", "o2"] ∧ d'.bools = exD.bools := ⟨exD_inv, _, _, rfl, by decide, by decide⟩
+
+/-- `rename_property`: the column twin -/
+theorem C13_rename_keeps_position_property {d d' : Defn} {old new : Name} {r : List Name} (h : d.Inv)
+    (hs : d.step (.renameProperty old new) = .ok (d', r)) :
+    d'.props.length = d.props.length ∧
+    (∀ i : Nat, d'.props[i]? = (d.props[i]?).map fun x => if x = old then new else x) ∧
+    d'.props.idxOf new = d.props.idxOf old ∧
+    d'.objs = d.objs ∧
+    (∀ a b, b ≠ old → b ≠ new → ((a, b) ∈ d'.pairs ↔ (a, b) ∈ d.pairs)) ∧
+    (∀ a, (a, new) ∈ d'.pairs ↔ (a, old) ∈ d.pairs) ∧
+    (∀ a b, b ∈ d.props → b ≠ old → d'.getItem a b = d.getItem a b) ∧
+    (∀ a, d'.getItem a new = d.getItem a old) ∧
+    d'.bools = d.bools := by
+  obtain ⟨hn, ho, _, rfl⟩ := step_renameProperty_ok hs
+  have hne : new ≠ old := fun e => hn (e ▸ ho)
+  have hnocell : ∀ a, (a, new) ∉ d.pairs := fun a ha => hn (h.2.2.2 _ _ ha).2
+  have hother : ∀ a b, b ≠ old → b ≠ new →
+      ((a, b) ∈ (d.pairs.map fun (o, p) => if p == old then (o, new) else (o, p)) ↔ (a, b) ∈ d.pairs) := by
+    intro a b h1 h2
+    rw [mem_renameProp]; tauto
+  have hnew : ∀ a, (a, new) ∈ (d.pairs.map fun (o, p) => if p == old then (o, new) else (o, p)) ↔
+      (a, old) ∈ d.pairs := by
+    intro a
+    rw [mem_renameProp]
+    have := hnocell a
+    tauto
+  refine ⟨by simp, ?_, idxOf_replace hn ho, rfl, hother, hnew, ?_, ?_, ?_⟩
+  · intro i
+    simp only [List.getElem?_map, beq_iff_eq]
+  · intro a b hb hbo
+    have hbn : b ≠ new := fun e => hn (e ▸ hb)
+    have hm : b ∈ (d.props.map fun x => if x == old then new else x) := by
+      rw [mem_replace]; exact Or.inl ⟨hb, hbo⟩
+    simp only [Defn.getItem, List.contains_eq_mem, hm, hb, hother a b hbo hbn]
+  · intro a
+    have hm : new ∈ (d.props.map fun x => if x == old then new else x) := by
+      rw [mem_replace]; exact Or.inr ⟨rfl, ho⟩
+    simp only [Defn.getItem, List.contains_eq_mem, hm, ho, hnew a]
+  · simp only [Defn.bools, List.map_map]
+    apply List.map_congr_left
+    intro a _
+    apply List.map_congr_left
+    intro b hb
+    rw [Function.comp, Bool.eq_iff_iff, List.contains_iff_mem, List.contains_iff_mem]
+    by_cases hbo : b = old
+    · subst hbo
+      have e : (if (b == b) = true then new else b) = new := by simp
+      rw [e]; exact hnew a
+    · have hbn : b ≠ new := fun e => hn (e ▸ hb)
+      have e : (if (b == old) = true then new else b) = b := by simp [hbo]
+      rw [e]; exact hother a b hbo hbn
+
+example : exD.Inv ∧ ∃ d' r, exD.step (.renameProperty "p1" "p9") = .ok (d', r) ∧
+    d'.props = ["p9", "p2"] ∧ d'.bools = exD.bools := ⟨exD_inv, _, _, rfl, by decide, by decide⟩
+
+/-- `remove_object`: the other objects keep their order, the properties are untouched, every cell
+of another object is unchanged; the table loses exactly the row of the removed object -/
+theorem C13_remove_other_rows {d d' : Defn} {o : Name} {r : List Name} (h : d.Inv)
+    (hs : d.step (.removeObject o) = .ok (d', r)) :
+    d'.objs = d.objs.filter (· != o) ∧ d'.props = d.props ∧
+    (∀ a b, (a, b) ∈ d'.pairs ↔ (a, b) ∈ d.pairs ∧ a ≠ o) ∧
+    (∀ a b, a ≠ o → d'.getItem a b = d.getItem a b) ∧
+    d'.bools = ((d.objs.zip d.bools).filter fun x => x.1 != o).map (·.2) ∧
+    d'.bools = d.bools.eraseIdx (d.objs.idxOf o) := by
+  obtain ⟨ho, _, rfl⟩ := step_removeObject_ok hs
+  have hc : ∀ a b, (a, b) ∈ (d.pairs.filter fun (o', p) => !(o' == o && d.props.contains p)) ↔
+      (a, b) ∈ d.pairs ∧ a ≠ o := by
+    intro a b
+    rw [mem_removeObj]
+    constructor
+    · rintro ⟨h1, h2⟩; exact ⟨h1, fun e => h2 ⟨e, (h.2.2.2 _ _ h1).2⟩⟩
+    · rintro ⟨h1, h2⟩; exact ⟨h1, fun e => h2 e.1⟩
+  have hb : Defn.bools ⟨d.objs.filter (· != o), d.props,
+        d.pairs.filter fun (o', p) => !(o' == o && d.props.contains p)⟩ =
+      ((d.objs.zip d.bools).filter fun x => x.1 != o).map (·.2) := by
+    simp only [Defn.bools, zip_map_self, List.filter_map, List.map_map]
+    have e1 : ((fun x : Name × List Bool => x.1 != o) ∘ fun x => (x, d.props.map fun p => d.pairs.contains (x, p)))
+        = fun x => x != o := rfl
+    rw [e1]
+    apply List.map_congr_left
+    intro a ha
+    simp only [Function.comp]
+    apply List.map_congr_left
+    intro b _
+    rw [Bool.eq_iff_iff, List.contains_iff_mem, List.contains_iff_mem, hc]
+    have : a ≠ o := by simpa using (List.mem_filter.mp ha).2
+    tauto
+  refine ⟨rfl, rfl, hc, ?_, hb, ?_⟩
+  · intro a b hao
+    have e1 : (d.objs.filter (· != o)).contains a = d.objs.contains a := by
+      rw [Bool.eq_iff_iff, List.contains_iff_mem, List.contains_iff_mem]; simp [hao]
+    have e2 : (d.pairs.filter fun (o', p) => !(o' == o && d.props.contains p)).contains (a, b) =
+        d.pairs.contains (a, b) := by
+      rw [Bool.eq_iff_iff, List.contains_iff_mem, List.contains_iff_mem, hc]; tauto
+    simp only [Defn.getItem, e1, e2]
+  · rw [hb]
+    exact zip_filter_eraseIdx h.1 (bools_length d).symm
+
+example : exD.Inv ∧ ∃ d' r, exD.step (.removeObject "o1") = .ok (d', r) ∧
+    d'.objs = ["o2"] ∧ d'.bools = [[false, true]] := ⟨exD_inv, _, _, rfl, by decide, by decide⟩
+
+/-- `remove_property`: the column twin -/
+theorem C13_remove_other_columns {d d' : Defn} {p : Name} {r : List Name} (h : d.Inv)
+    (hs : d.step (.removeProperty p) = .ok (d', r)) :
+    d'.props = d.props.filter (· != p) ∧ d'.objs = d.objs ∧
+    (∀ a b, (a, b) ∈ d'.pairs ↔ (a, b) ∈ d.pairs ∧ b ≠ p) ∧
+    (∀ a b, b ≠ p → d'.getItem a b = d.getItem a b) ∧
+    d'.bools = (d.bools.map fun row => ((d.props.zip row).filter fun x => x.1 != p).map (·.2)) ∧
+    d'.bools = d.bools.map fun row => row.eraseIdx (d.props.idxOf p) := by
+  obtain ⟨hp, _, rfl⟩ := step_removeProperty_ok hs
+  have hc : ∀ a b, (a, b) ∈ (d.pairs.filter fun (o, p') => !(p' == p && d.objs.contains o)) ↔
+      (a, b) ∈ d.pairs ∧ b ≠ p := by
+    intro a b
+    rw [mem_removeProp]
+    constructor
+    · rintro ⟨h1, h2⟩; exact ⟨h1, fun e => h2 ⟨e, (h.2.2.2 _ _ h1).1⟩⟩
+    · rintro ⟨h1, h2⟩; exact ⟨h1, fun e => h2 e.1⟩
+  have hb : Defn.bools ⟨d.objs, d.props.filter (· != p),
+        d.pairs.filter fun (o, p') => !(p' == p && d.objs.contains o)⟩ =
+      (d.bools.map fun row => ((d.props.zip row).filter fun x => x.1 != p).map (·.2)) := by
+    simp only [Defn.bools, List.map_map]
+    apply List.map_congr_left
+    intro a _
+    simp only [Function.comp, zip_map_self, List.filter_map, List.map_map]
+    have e1 : ((fun x : Name × Bool => x.1 != p) ∘ fun x => (x, d.pairs.contains (a, x)))
+        = fun x => x != p := rfl
+    rw [e1]
+    apply List.map_congr_left
+    intro b hb
+    rw [Function.comp, Bool.eq_iff_iff, List.contains_iff_mem, List.contains_iff_mem, hc]
+    have : b ≠ p := by simpa using (List.mem_filter.mp hb).2
+    tauto
+  refine ⟨rfl, rfl, hc, ?_, hb, ?_⟩
+  · intro a b hbp
+    have e1 : (d.props.filter (· != p)).contains b = d.props.contains b := by
+      rw [Bool.eq_iff_iff, List.contains_iff_mem, List.contains_iff_mem]; simp [hbp]
+    have e2 : (d.pairs.filter fun (o, p') => !(p' == p && d.objs.contains o)).contains (a, b) =
+        d.pairs.contains (a, b) := by
+      rw [Bool.eq_iff_iff, List.contains_iff_mem, List.contains_iff_mem, hc]; tauto
+    simp only [Defn.getItem, e1, e2]
+  · rw [hb]
+    apply List.map_congr_left
+    intro row hrow
+    exact zip_filter_eraseIdx h.2.1 (bools_row_length d row hrow).symm
+
+example : exD.Inv ∧ ∃ d' r, exD.step (.removeProperty "p1") = .ok (d', r) ∧
+    d'.props = ["p2"] ∧ d'.bools = [[false], [true]] := ⟨exD_inv, _, _, rfl, by decide, by decide⟩
+
+/-- adding a property that is not listed gives an all-false column -/
+theorem C13_add_fresh_empty_col {d : Defn} {p : Name} (h : d.Inv) (hp : p ∉ d.props) :
+    ∃ d', d.step (.addProperty p []) = .ok (d', []) ∧ d'.props = d.props ++ [p] ∧ d'.objs = d.objs ∧
+      d'.bools = d.bools.map (· ++ [false]) := by
+  refine ⟨_, rfl, ?_, ?_, ?_⟩
+  · simp [uAdd, hp]
+  · simp [uIor]
+  · simp only [Defn.bools, uAdd_of_not_mem hp, uIor, List.foldl_nil, List.map_append, List.map_cons,
+      List.map_nil, List.map_map]
+    apply List.map_congr_left
+    intro o _
+    simp only [Function.comp]
+    congr 2
+    rw [← Bool.not_eq_true, List.contains_iff_mem]
+    exact fun hc => hp (h.2.2.2 o p hc).2
+
+/-- remove a property, add it again: its column is all false -/
+theorem C13_readd_empty_col {d d1 d2 : Defn} {p : Name} {r1 r2 : List Name} (h : d.Inv)
+    (hs1 : d.step (.removeProperty p) = .ok (d1, r1)) (hs2 : d1.step (.addProperty p []) = .ok (d2, r2)) :
+    d2.props = d1.props ++ [p] ∧ d2.objs = d.objs ∧
+    d2.bools = d1.bools.map (· ++ [false]) ∧
+    ∀ o ∈ d2.objs, d2.getItem o p = .ok false := by
+  have hi1 : d1.Inv := inv_step (op := .removeProperty p) h trivial hs1
+  have hno := C13_no_residue_removeProperty h hs1
+  obtain ⟨d', hd', e1, e2, e3⟩ := C13_add_fresh_empty_col hi1 hno.1
+  rw [hd'] at hs2
+  cases hs2
+  have ho1 : d1.objs = d.objs := by
+    obtain ⟨_, _, rfl⟩ := step_removeProperty_ok hs1; rfl
+  refine ⟨e1, e2.trans ho1, e3, ?_⟩
+  intro o ho
+  have hcell : (o, p) ∉ d2.pairs := by
+    have : d2.pairs = d1.pairs := by cases hd'; rfl
+    rw [this]; exact hno.2 o
+  simp only [Defn.getItem, e1, List.contains_eq_mem, List.mem_append, List.mem_singleton, or_true,
+    decide_true, ho, Bool.and_self, if_true, hcell, decide_false]
+
+example : ∃ d1 r1 d2 r2, exD.step (.removeProperty "p1") = .ok (d1, r1) ∧
+    d1.step (.addProperty "p1" []) = .ok (d2, r2) ∧ d2.bools = [[false, false], [true, false]] :=
+  ⟨_, _, _, _, rfl, rfl, by decide⟩
+
+/-- ... also after an arbitrary history in between -/
+theorem C13_readd_empty_col_history {d : Defn} {ops : List Op} {p : Name} (h : d.Inv)
+    (hops : ∀ op ∈ ops, op.operandInv) (hp : p ∉ (d.runHistory ops).props) :
+    ∃ d', (d.runHistory ops).step (.addProperty p []) = .ok (d', []) ∧
+      d'.bools = (d.runHistory ops).bools.map (· ++ [false]) := by
+  obtain ⟨d', h1, _, _, h2⟩ := C13_add_fresh_empty_col (C13_inv_history h hops) hp
+  exact ⟨d', h1, h2⟩
+
+example : exD.Inv ∧ (∀ op ∈ [Op.removeProperty "p1", Op.setItem "o1" "p2" true], op.operandInv) ∧
+    "p1" ∉ (exD.runHistory [.removeProperty "p1", .setItem "o1" "p2" true]).props :=
+  ⟨exD_inv, by simp [Op.operandInv], by decide⟩
+
 end FCA
 
 open FCA in
@@ -715,3 +1047,23 @@ open FCA in
 #print axioms C13_removeEmptyObjects
 open FCA in
 #print axioms C13_removeEmptyProperties
+open FCA in
+#print axioms C13_pairs_as_set
+open FCA in
+#print axioms C13_pairs_as_set_history
+open FCA in
+#print axioms C13_pairs_as_set_derived
+open FCA in
+#print axioms C13_rename_keeps_position
+open FCA in
+#print axioms C13_rename_keeps_position_property
+open FCA in
+#print axioms C13_remove_other_rows
+open FCA in
+#print axioms C13_remove_other_columns
+open FCA in
+#print axioms C13_add_fresh_empty_col
+open FCA in
+#print axioms C13_readd_empty_col
+open FCA in
+#print axioms C13_readd_empty_col_history
